@@ -811,5 +811,9 @@ func (s *resourceScope) IsUnused() bool {
 		st.NumStreamsOutbound == 0 &&
 		st.NumConnsInbound == 0 &&
 		st.NumConnsOutbound == 0 &&
-		st.NumFD == 0
+		st.NumFD == 0 &&
+		// a scope that still holds a memory reservation (made directly through
+		// ViewPeer/ViewProtocol) is in use: collecting it would release the memory
+		// from system while the caller still holds it.
+		st.Memory == 0
 }
